@@ -87,6 +87,30 @@ WellFormed(r) ==
 ObservedPaths(r) == [i \in RowIdx(r) |-> RowPath(r, i)]
 
 (***************************************************************************)
+(* Columns.  Every line that carries cells (column headings, statistics    *)
+(* rows, throughput / allocation rows) puts them under the headings: the   *)
+(* first cell starts where "fastest" starts (two further right for the     *)
+(* figures of an allocation block), and as long as no cell so far          *)
+(* was wider than the column the heading line laid out, the separators are *)
+(* where the heading line has them.  Positions are counted in characters.  *)
+(***************************************************************************)
+ColLines(r) == {i \in 1..Len(r.lines) : r.lines[i].t \in {"row", "cont"} /\ Len(r.lines[i].seps) = 5}
+Aligned(r) ==
+  LET H == ColLines(r) IN
+  IF H = {} THEN {} ELSE
+  LET h == CHOOSE i \in H : \A j \in H : i <= j
+      hd == r.lines[h]
+      colW(k) == IF k = 1 THEN hd.seps[1] - hd.c1_at - 1 ELSE hd.seps[k] - hd.seps[k - 1] - 3
+      fits(i) == \A k \in 1..5 : Len(r.lines[i].cells_cp[k]) + (IF k = 1 /\ r.lines[i].t = "cont" THEN 2 ELSE 0) <= colW(k)
+  IN IF hd.c1_at < 0 THEN {} ELSE
+     \* (the figures of an allocation block are indented by two under their label)
+     Flag(\E i \in H : r.lines[i].c1_at >= 0 /\ r.lines[i].c1_at # hd.c1_at /\
+                        ~(r.lines[i].t = "cont" /\ r.lines[i].c1_at = hd.c1_at + 2),
+          "C20:statistics_do_not_start_under_the_first_heading")
+     \cup Flag(\E i \in H : (\A j \in H : j <= i => fits(j)) /\ r.lines[i].seps # hd.seps,
+               "C20:column_separators_not_under_those_of_the_headings")
+
+(***************************************************************************)
 (* Cells.                                                                  *)
 (***************************************************************************)
 Ignored == <<40, 105, 103, 110, 111, 114, 101, 100, 41>>   \* "(ignored)"
@@ -295,6 +319,7 @@ CheckRun(r) ==
     Flag(r.panicked \/ ~r.exit_seen, "ALL:runner_panicked")
     \* ---------------------------------------------------------------- C20
     \cup WellFormed(r)
+    \cup (IF C.action = "bench" THEN Aligned(r) ELSE {})
     \cup Flag(Cardinality(obsSet) # Cardinality(RowIdx(r)), "C20:row_printed_twice")
     \* C15: duplicate thread counts collapse (after 0 became the available parallelism)
     \cup Flag(\E i, j \in RowIdx(r) : i # j /\ keyOf(i) = keyOf(j) /\ Len(obs[i]) >= 1 /\
